@@ -58,6 +58,7 @@ const (
 	nEth          = 3
 	defaultGas    = 200000
 	userOntAmount = 10000
+	userOngAmount = 1000 * 1000000000 // 1000 ONG
 )
 
 func detAccount(i int) *account.Account {
@@ -256,4 +257,5 @@ var (
 	ontAddrHex   = addrHex(nutils.OntContractAddress)
 	ongAddrHex   = addrHex(nutils.OngContractAddress)
 	ontidAddrHex = addrHex(nutils.OntIDContractAddress)
+	ontfsAddrHex = addrHex(nutils.OntFSContractAddress)
 )
